@@ -2414,7 +2414,7 @@ def c19_cases(tier, seed):
     # a message handed over at the very moment keys arrive, in an application whose key handling takes a few milliseconds: the
     # terminal and the printer's wake-up are then ready for ONE wait -- the message is still shown by the time the read waits with
     # nothing pending, and so is every later one
-    for i in range(max(4, n // 25)):
+    for i in range(max(6, n // 25)):
         mode = ["emacs", "vi"][i % 2]
         cmds = gen_c19(rng, mode)[:4] + [Cmd(["F12"], "noop"), Cmd(["Enter"], "enter")]
         cmds = [c for c in cmds if c.keys != ["C-z"]]
@@ -2425,7 +2425,7 @@ def c19_cases(tier, seed):
             bursts[len(cmds) - 2] = [(0, "<0:2:last>")]
         c = script_case(cmds, mode=mode, chunks=chunks, cols=80, prompt="> ", timeout=0 if mode == "vi" else "none", reads=2)
         c.meta.update({"printers": 1, "prints": {}, "bursts": bursts, "burst_keys": {k0: b"xy" if i % 3 else b"x"},
-                       "key_delay_ms": 4, "no_model": 1})
+                       "key_delay_ms": [40, 15, 80, 4][i % 4], "no_model": 1})   # (the longer pauses: for a loaded machine)
         cases.append(c)
     # bursts: several threads are told to print at once, without waiting for one another (the editor may find
     # more than one wake-up pending); which message comes first is not determined, the oracle does not care
